@@ -32,14 +32,70 @@ REQUIRED = ["mSdBegin", "sdDrainGet", "sdDrainCancel", "sdDrainEmpty", "sdPutSto
             "mSubmitRaise", "wProcStop", "wJoinExit", "rBeginSd", "dJoinThread"]
 
 
+def fault_scenarios(ctx: Ctx, only=None):
+    """shutdown after an idle worker process died (SIGKILL from outside): every (wait, cancel_futures) form returns, is repeatable,
+    closes the executor, leaves no thread and no process (oracle only: Sys has no process faults)."""
+    import os
+
+    from .common import InfraError, finish_json_child, start_json_child
+
+    plans = [only] if only else [dict(workers=nw, wait=w, cancel=c, resolver=r, kill_all=ka)
+                                 for nw, w, c, r, ka in ((1, 1, 0, 0, 0), (2, 1, 1, 0, 0), (1, 0, 0, 0, 0), (1, 1, 0, 1, 0), (2, 1, 0, 1, 1), (3, 0, 1, 0, 1))]
+    if ctx.tier != "quick" and not only:
+        plans += [dict(workers=nw, wait=w, cancel=c, resolver=r, kill_all=ka) for nw in (1, 2, 3) for w in (0, 1) for c in (0, 1) for r in (0, 1) for ka in (0, 1)]
+    bad = []
+    repo = os.environ.get("VERIF_REPO", "/repo")
+    for k in range(0, len(plans), 6):
+        hs = [(p, start_json_child(["vh.kill_shutdown_runner"] + [str(int(p[x])) for x in ("workers", "wait", "cancel", "resolver", "kill_all")])) for p in plans[k:k + 6]]
+        for p, h in hs:
+            o = finish_json_child(h, 200)
+            if o is None or (o.get("shutdown") == "hang"):
+                # a verdict resting on a time limit counts only when it happens again, alone
+                o = finish_json_child(start_json_child(["vh.kill_shutdown_runner"] + [str(int(p[x])) for x in ("workers", "wait", "cancel", "resolver", "kill_all")]), 300)
+            if o is None:
+                raise InfraError("kill/shutdown runner produced no output for %r" % (p,))
+            if not os.path.realpath(o["pin"]).startswith(os.path.realpath(repo) + os.sep):
+                raise InfraError("kill/shutdown runner imported executorlib from " + o["pin"])
+            ctx.case({"shutdown_after_worker_killed": p})
+            ctx.count("fault.shutdown_after_worker_killed")
+            problems = []
+            if o["shutdown"] != "returned":
+                problems.append("shutdown(wait=%s, cancel_futures=%s): %s" % (o["wait"], o["cancel_futures"], o["shutdown"]))
+            else:
+                if o.get("second_shutdown") != "returned":
+                    problems.append("second shutdown: %s" % o.get("second_shutdown"))
+                if o.get("submit_after") == "accepted":
+                    problems.append("submit() after shutdown() accepted the call")
+                if o.get("threads_alive"):
+                    problems.append("%d worker thread(s) never end" % o["threads_alive"])
+                if o.get("processes_left"):
+                    problems.append("worker processes left: %r" % o["processes_left"])
+            if problems:
+                bad.append({"plan": p, "problems": problems, "outcome": o})
+    ctx.oblige("fault scenarios: shutdown after an idle worker process was killed returns in every form, is repeatable, closes the executor, "
+               "leaves no thread and no process", not bad, "%d scenarios" % len(plans))
+    if bad:
+        ctx.violation({"kind": "shutdown_after_worker_killed", "failing_input": True},
+                      {"what": "shutdown() after a worker process had died (killed from outside while idle) did not return / was not repeatable / "
+                               "left the executor open, a thread or a process behind", "kind": "fault", "plan": bad[0]["plan"], "cases": bad[:3]})
+    return len(plans)
+
+
 def body(ctx: Ctx):
     if ctx.replay_file:
+        import json
+
+        data = json.load(open(ctx.replay_file))
+        if data.get("kind") == "fault":
+            return {"rule": "replay of a fault scenario", "fault_scenarios": fault_scenarios(ctx, only=data["plan"])}
         return sysprop.replay(ctx, "C05", ctx.replay_file)
     n = 110 if ctx.tier == "quick" else 1100
     res = sysprop.campaign(ctx, "C05", PROFILE, n, CORPUS, REQUIRED)
     checked, stuck = invariants_on_traces(ctx, "C05", PROFILE, 30 if ctx.tier == "quick" else 300)
     ctx.oblige("executable invariants hold on %d replayed traces without failing calls; %d end with the script finished" % (checked, stuck), True)
-    res["rule"] = ("engine B: histories with 0-3 shutdown calls of all four (wait, cancel_futures) combinations placed anywhere (also after an "
+    res["fault_scenarios"] = fault_scenarios(ctx)
+    res["rule"] = ("fault scenarios: shutdown (all four forms, 1-3 workers, with / without the resolver) after one or every idle worker process "
+                   "was killed from outside; engine B: histories with 0-3 shutdown calls of all four (wait, cancel_futures) combinations placed anywhere (also after an "
                    "earlier shutdown, followed by submit), cancels, gated running calls, parked dependents; 12% of the calls raise "
                    "(block allocation with >= 2 workers + a raising call is the listed deadlock D19); oracles: every shutdown returned "
                    "(watchdog + model-predicted stuck state), shutdown raised nothing but a call's own exception, submit after a completed "
